@@ -128,6 +128,37 @@ def component_dump(obj) -> str:
 # --------------------------------------------------------------------------
 
 _SMALL = (int, float, bool, type(None))
+from contextvars import ContextVar as _ContextVar  # noqa: E402
+from threading import local as _ThreadLocal  # noqa: E402
+
+
+def external_probe() -> dict:
+    """The same probes by name, plus polars' display configuration (C14 targeting signal: which kind of
+    process-global state outside the package did an operation leave changed?)."""
+    names = ("cwd", "environ", "decimal_prec", "decimal_rounding", "locale", "recursion_limit", "warning_filters",
+             "tempfile_tempdir", "polars_string_cache")
+    d = dict(zip(names, external_sig()))
+    try:
+        import polars as pl
+
+        d["polars_config"] = pl.Config.save()
+    except Exception:  # noqa: BLE001
+        d["polars_config"] = None
+    try:
+        import os as _os
+
+        um = _os.umask(0)
+        _os.umask(um)
+        d["umask"] = um
+    except Exception:  # noqa: BLE001
+        d["umask"] = None
+    try:
+        import PIL.Image as _I
+
+        d["pillow_registries"] = (len(_I.OPEN), len(_I.SAVE), len(_I.EXTENSION), _I.MAX_IMAGE_PIXELS)
+    except Exception:  # noqa: BLE001
+        d["pillow_registries"] = None
+    return d
 
 
 def external_sig():
@@ -266,6 +297,18 @@ class FastSig:
             d = getattr(v, "__dict__", None)
             if isinstance(d, dict) and depth > 0:
                 return (id(v), FastSig._shallow(d, depth - 1))
+        if t is _ContextVar:
+            # the value the probing thread's context holds (a mutable holder kept there is shared by every
+            # context copied from it)
+            try:
+                cur = v.get()
+            except LookupError:
+                return (id(v), None)
+            return (id(v), FastSig._shallow(cur, depth - 1) if depth > 0 else id(cur))
+        if isinstance(v, _ThreadLocal):
+            d = getattr(v, "__dict__", None)
+            if isinstance(d, dict) and depth > 0:
+                return (id(v), FastSig._shallow(d, depth - 1))
         return id(v)
 
     def sig0(self):
@@ -309,7 +352,8 @@ class FastSig:
                 except (KeyError, IndexError):
                     continue
                 t = type(v)
-                if t in (dict, list, set, bytearray) or (getattr(t, "__module__", "") or "").startswith("rtflite"):
+                if t in (dict, list, set, bytearray) or (getattr(t, "__module__", "") or "").startswith("rtflite") \
+                        or t is _ContextVar or isinstance(v, _ThreadLocal):
                     if t in (dict, list, set) and len(v) > 48:
                         deep.append((d, k, 0))
                     else:
